@@ -186,7 +186,7 @@ Print Assumptions C13_pinned_refuted_alias_steal.
 Theorem C13_nodes_ids_alias_refuted :
   let rv := {| fix_rollback_replace := true; fix_alias_steal_undo := true; fix_alias_nodes_only := true;
                fix_strict_order := true; fix_slice_clamp := true; fix_edge_origin := true;
-               fix_visited_chain := true; fix_nodes_ids_alias := false |} in
+               fix_visited_chain := true; fix_nodes_ids_alias := false; fix_empty_alias := false |} in
   let d := fst (exec rv db_new (InsertNodes 2 (Single []) [[x61]; [x62]] (Ids []))) in
   let d' := fst (transaction rv d [InsertNodes 0 (Single []) [[x61]] (Ids [QId 2])] true) in
   ~ obs_eq d d' /\
